@@ -33,7 +33,7 @@ func genTerm(r *rng) (dexpr, string) {
 		return dexpr{"coc", bonus, n}, fmt.Sprintf("%s%d", letter, n)
 	}
 	times := 1 + r.intn(6)
-	sides := pick(r, []int{1, 2, 3, 4, 6, 8, 10, 20, 100})
+	sides := pick(r, []int{1, 2, 3, 4, 6, 8, 10, 20, 100, 1, 2, 3, 4, 6, 8, 10, 20, 100, 1000, 2147483647, 2147483648, 4294967296, 10000000000})
 	keep, low, high := 0, 0, 0
 	txt := fmt.Sprintf("%dd%d", times, sides)
 	if r.chance(3, 5) {
